@@ -340,6 +340,19 @@ func Eq(a, b *Term) *Term {
 	if a.kind == kLit && b.kind == kLit {
 		return False
 	}
+	// ite(c, x, y) == lit with literal branches
+	for k := 0; k < 2; k++ {
+		it, lit := a, b
+		if k == 1 {
+			it, lit = b, a
+		}
+		if lit.kind == kLit && it.kind == kApp && it.Op == "ite" {
+			x, y := it.Args[1], it.Args[2]
+			if (x.kind == kLit || (x.kind == kApp && x.Op == "ite")) && (y.kind == kLit || (y.kind == kApp && y.Op == "ite")) {
+				return Ite(it.Args[0], Eq(x, lit), Eq(y, lit))
+			}
+		}
+	}
 	if a.Sort == "Bool" {
 		if a == True {
 			return b
